@@ -29,6 +29,9 @@ fn main() {
         "C02" => drive(&props::c02::C02, tier, seed, replay),
         "C03" => drive(&props::c03::C03, tier, seed, replay),
         "C05" => drive(&props::c05::C05, tier, seed, replay),
+        "C06" => drive(&props::c06::C06, tier, seed, replay),
+        "C07" => drive(&props::c07::C07, tier, seed, replay),
+        "C09" => drive(&props::c09::C09, tier, seed, replay),
         "C13" => drive(&props::c13::C13, tier, seed, replay),
         other => harness_error(&format!("unknown property {other}")),
     };
